@@ -118,6 +118,8 @@ func drawBytes(t *simhook.Tape) []byte {
 	return b
 }
 
+var invalidStrings = []string{"\xff", "\xfe", "a\x80b", "a\x81b", "\xc3\x28", "ok\xed\xa0\x80", "ok\xed\xa0\x81", "k\xff", "k\xfe", "\xff\xff", "\xff\xfe"}
+
 // invalidUTF8 is switched on by Gen for the duration of one value (the tape
 // owner is single-threaded).
 var invalidUTF8 bool
@@ -140,8 +142,10 @@ func DrawScalar(t *simhook.Tape, fd protoreflect.FieldDescriptor) protoreflect.V
 	case protoreflect.DoubleKind:
 		return protoreflect.ValueOfFloat64(math.Float64frombits(f64Pool[t.Draw("f64", len(f64Pool))]))
 	case protoreflect.StringKind:
-		if invalidUTF8 && t.Chance("invalid-utf8", 1, 10) {
-			return protoreflect.ValueOfString([]string{"\xff", "a\x80b", "\xc3\x28", "ok\xed\xa0\x80"}[t.Draw("invalid-utf8-which", 4)])
+		if invalidUTF8 && t.Chance("invalid-utf8", 1, 4) {
+			// pairs that differ in an ill-formed byte only: whoever decodes
+			// strings to runes sees two equal strings
+			return protoreflect.ValueOfString(invalidStrings[t.Draw("invalid-utf8-which", len(invalidStrings))])
 		}
 		return protoreflect.ValueOfString(drawString(t))
 	case protoreflect.BytesKind:
@@ -248,6 +252,10 @@ func gen(t *simhook.Tape, md protoreflect.MessageDescriptor, cfg GenCfg, depth i
 	}
 	cl := classify(md)
 	if len(cl.all) == 0 {
+		// a message without declared fields: unknown records are all it can hold
+		if cfg.Unknown && t.Chance("unknown-fieldless", 1, 2) {
+			m.SetUnknown(genUnknown(t, md))
+		}
 		return m
 	}
 	maxF := cfg.MaxFields
